@@ -1079,4 +1079,79 @@ example : AroundWF (Step.replaceAround 1 6 2 5 ⟨[.elem 0 [] [] []], 0, 0⟩ 1 
     GapSep (Step.replaceAround 1 6 2 5 ⟨[.elem 0 [] [] []], 0, 0⟩ 1 true) := by
   refine ⟨⟨by decide, by decide, by decide⟩, .inl (by decide)⟩
 
+/-! a concrete two-step history through `Tr.run`: the hypotheses of the Transform-level theorems hold
+    and the two sides differ -/
+section Example
+/-- doc(para*), para(text*), text -/
+private def tinyS : Schema :=
+  { nodes := #[
+      { name := "doc", isText := false, isInline := false, isLeaf := false, isAtom := false,
+        inlineContent := false, isolating := false, defining := false, code := false,
+        dfa := #[⟨true, [(1, 0)]⟩], markSet := some [], attrs := [] },
+      { name := "para", isText := false, isInline := false, isLeaf := false, isAtom := false,
+        inlineContent := true, isolating := false, defining := false, code := false,
+        dfa := #[⟨true, [(2, 0)]⟩], markSet := none, attrs := [] },
+      { name := "text", isText := true, isInline := true, isLeaf := true, isAtom := true,
+        inlineContent := false, isolating := false, defining := false, code := false,
+        dfa := #[⟨true, []⟩], markSet := some [], attrs := [] }],
+    marks := #[], top := 0, textTy := 2 }
+
+/-- `<p>ab</p><p>c</p>` -/
+private def tinyDoc : Node :=
+  .elem 0 [] [] [.elem 1 [] [] [.text [97, 98] []], .elem 1 [] [] [.text [99] []]]
+/-- `<p>ax</p><p>c</p>` -/
+private def tinyDoc1 : Node :=
+  .elem 0 [] [] [.elem 1 [] [] [.text [97, 120] []], .elem 1 [] [] [.text [99] []]]
+/-- `<p>ax</p><p>yzc</p>` -/
+private def tinyDoc2 : Node :=
+  .elem 0 [] [] [.elem 1 [] [] [.text [97, 120] []], .elem 1 [] [] [.text [121, 122, 99] []]]
+/-- replace `b` by `x` -/
+private def st1 : Step := .replace 2 3 ⟨[.text [120] []], 0, 0⟩ false
+/-- insert `yz` at the start of the second paragraph -/
+private def st2 : Step := .replace 5 5 ⟨[.text [121, 122] []], 0, 0⟩ false
+
+private theorem tiny_fwd1 : tinyS.apply st1 tinyDoc = .ok tinyDoc1 := by
+  have hv : tinyS.validContent 1 [Node.text [97, 120] []] = true := by decide
+  simp [st1, Schema.apply, Schema.fromReplace, Schema.replace, tinyDoc, replaceKids, inRange,
+    depthAt, Slice.wf, spineL, spineR, outer, atLevel, fcut, fcutLoop, cutText, splitOk, isHigh, isLow,
+    fappend, addNode, Except.map, tinyDoc1, hv]
+
+private theorem tiny_fwd2 : tinyS.apply st2 tinyDoc1 = .ok tinyDoc2 := by
+  have hv : tinyS.validContent 1 [Node.text [121, 122, 99] []] = true := by decide
+  simp [st2, Schema.apply, Schema.fromReplace, Schema.replace, tinyDoc1, replaceKids, inRange,
+    depthAt, Slice.wf, spineL, spineR, outer, atLevel, fcut, fappend, addNode, Except.map, tinyDoc2, hv]
+
+private theorem tiny_run : (Tr.init tinyDoc).run tinyS [st1, st2] =
+    { doc := tinyDoc2, steps := [st1, st2], docs := [tinyDoc, tinyDoc1], maps := [st1.getMap, st2.getMap] } := by
+  simp [Tr.run, Tr.maybeStep, Tr.init, tiny_fwd1, tiny_fwd2, Tr.addStep]
+
+/-- position 6 (after `c`): its preceding token stays outside both steps' ranges on the left side;
+    `tr.mapping.map(6, -1) = 8` and the token before 8 in the final document is the `c` that was
+    before 6.  Position 5 (the later insertion point) goes to 5 on the left, to 7 on the right, and
+    both of its neighbours are kept. -/
+example :
+    (∀ st ∈ [st1, st2], AroundOK st) ∧
+    OutsideAllL ((Tr.init tinyDoc).run tinyS [st1, st2]).maps 6 ∧
+    (Mapping.ofMaps ((Tr.init tinyDoc).run tinyS [st1, st2]).maps).map 6 (-1) = some 8 ∧
+    (ftoks ((Tr.init tinyDoc).run tinyS [st1, st2]).doc.kids)[8 - 1]? = (ftoks tinyDoc.kids)[6 - 1]? ∧
+    OutsideAllL ((Tr.init tinyDoc).run tinyS [st1, st2]).maps 5 ∧
+    OutsideAll ((Tr.init tinyDoc).run tinyS [st1, st2]).maps 5 ∧
+    (Mapping.ofMaps ((Tr.init tinyDoc).run tinyS [st1, st2]).maps).map 5 (-1) = some 5 ∧
+    (Mapping.ofMaps ((Tr.init tinyDoc).run tinyS [st1, st2]).maps).map 5 1 = some 7 := by
+  rw [tiny_run]
+  have e1 : st1.getMap = ⟨[(2, 1, 1)], false⟩ := by decide
+  have e2 : st2.getMap = ⟨[(5, 0, 2)], false⟩ := by decide
+  have m1 : (StepMap.mk [(2, 1, 1)] false).map 6 (-1) = 6 := by decide
+  have m2 : (StepMap.mk [(2, 1, 1)] false).map 5 (-1) = 5 := by decide
+  have m3 : (StepMap.mk [(2, 1, 1)] false).map 5 1 = 5 := by decide
+  simp only [e1, e2]
+  refine ⟨?_, ?_, by decide, by decide, ?_, ?_, by decide, by decide⟩
+  · intro st hst
+    simp only [List.mem_cons, List.not_mem_nil, or_false] at hst
+    rcases hst with rfl | rfl <;> exact trivial
+  · simp [OutsideAllL, outside, m1]
+  · simp [OutsideAllL, outside, m2]
+  · simp [OutsideAll, outside, m3]
+end Example
+
 end PM.C03
